@@ -6,6 +6,8 @@ by reference and a fresh interpreter (egverif.worker) can load them.
 No class overrides __eq__/__hash__ (the properties assume identity semantics).
 """
 
+import functools
+
 from edgegraph.structure import (
     Vertex,
     Universe,
@@ -39,6 +41,22 @@ class EmptyVertex(Vertex):
         return 0
 
 
+class VPlain(Vertex):
+    pass
+
+
+class VFancy(Vertex):
+    pass
+
+
+class VBoth(VPlain, VFancy):
+    """Multiple inheritance: MRO is VBoth, VPlain, VFancy, Vertex."""
+
+
+class Marker:
+    """Plain mixin (not a graph class)."""
+
+
 class DSub(DirectedEdge):
     pass
 
@@ -49,6 +67,10 @@ class DSubSub(DSub):
 
 class USub(UnDirectedEdge):
     pass
+
+
+class MixEdge(Marker, DirectedEdge):
+    """A directed edge whose FIRST base is a plain mixin."""
 
 
 class OtherLink(TwoEndedLink):
@@ -65,7 +87,7 @@ class MultiLink(Link):
 
 VERTEX_CLASSES = {
     c.__name__: c
-    for c in (Vertex, VSub, VSubSub, FalsyVertex, EmptyVertex, Universe)
+    for c in (Vertex, VSub, VSubSub, FalsyVertex, EmptyVertex, Universe, VPlain, VFancy, VBoth)
 }
 EDGE_CLASSES = {
     c.__name__: c
@@ -75,6 +97,7 @@ EDGE_CLASSES = {
         DSub,
         DSubSub,
         USub,
+        MixEdge,
         OtherLink,
         OtherLink2,
         TwoEndedLink,
@@ -87,7 +110,7 @@ ALL_CLASSES.update(VERTEX_CLASSES)
 ALL_CLASSES.update(LINK_CLASSES)
 ALL_CLASSES["UniverseLaws"] = UniverseLaws
 
-DIRECTED_NAMES = ("DirectedEdge", "DSub", "DSubSub")
+DIRECTED_NAMES = ("DirectedEdge", "DSub", "DSubSub", "MixEdge")
 UNDIRECTED_NAMES = ("UnDirectedEdge", "USub")
 OTHER_NAMES = ("OtherLink", "OtherLink2", "TwoEndedLink")
 
@@ -158,6 +181,27 @@ class TagMod:
 f_tagmod2 = TagMod(2).ok
 f_tagmod3 = TagMod(3).ok
 
+
+class FalsyCallable:
+    """
+    A filter that is a callable *object* whose truth value is False (it looks
+    like an empty container).  "No filter" must be decided by `is None`, never
+    by truthiness.
+    """
+
+    def __init__(self, m):
+        self.m = m
+
+    def __len__(self):
+        return 0
+
+    def __call__(self, e, v=None):
+        return getattr(e, "tag", 0) % self.m == 1
+
+
+f_falsy_callable = FalsyCallable(2)
+f_partial = functools.partial(_at_least(2))
+
 NB_FILTERS = {
     "none": None,
     "accept": f_accept,
@@ -170,6 +214,8 @@ NB_FILTERS = {
     "min3": f_min3,
     "tagmod2": f_tagmod2,
     "tagmod3": f_tagmod3,
+    "falsy_callable": f_falsy_callable,
+    "partial": f_partial,
 }
 
 
@@ -189,7 +235,10 @@ def g_not_directed(e):
     return not isinstance(e, DirectedEdge)
 
 
+g_falsy_callable = FalsyCallable(2)
+
 FL_FILTERS = {
+    "falsy_callable": g_falsy_callable,
     "none": None,
     "accept": g_accept,
     "reject": g_reject,
